@@ -10,16 +10,21 @@ runtime route; a quoted annotation is a string constant and goes to the AST rout
 -/
 namespace Pya.C13
 
-/-- an annotation in checked source -/
-def visEval (au : Bool) : AnnExpr → Option Res
-  | .str x => astEval au x
-  | e => rtEval au (tnorm (squash e))
+/-- an annotation in checked source, names resolved by the visitor (`resolve_name`): a quoted
+annotation is parsed and read by the AST route; an unquoted one is evaluated as an expression —
+names become the objects they are bound to, subscripts really build the `typing` object — and the
+object is read by the runtime route, nested strings again by the AST route. -/
+def visEval (env : NameEnv) (au : Bool) : AnnExpr → Option Res
+  | .str x => astEval (visLookup env) au x
+  | e => rtEval (visLookup env) au (tnorm (squash (resolveV (visLookup env) e)))
 
 /-- the signature pyanalyze derives from the `def` statement -/
-def fromDef (d : DefArgs) : Option SigOut := fromDefWith visEval d
+def fromDef (env : NameEnv) (d : DefArgs) : Option SigOut := fromDefWith (visEval env) d
 
-/-- the signature pyanalyze derives from the function object -/
-def fromRuntime (d : DefArgs) : Option SigOut := fromInspect (inspectOf d)
+/-- the signature pyanalyze derives from the function object: the annotation objects `inspect`
+reports, string annotations resolved through `f.__globals__` (`AnnotationsContext`) -/
+def fromRuntime (env : NameEnv) (d : DefArgs) : Option SigOut :=
+  fromInspect (globalsLookup env) (inspectOf env d)
 
 /-- the signature as the shared binder model (Core/Sig.lean, `Signature.bind_arguments`, verified
 against CPython in C05) consumes it: names, kinds, default presence -/
